@@ -92,6 +92,25 @@ fn strings() -> Vec<String> {
 // ------------------------------------------------------------------------------------------------
 // checks
 
+/// the same vectors again, but with spare capacity (built in a larger allocation, and re-filled after clear()):
+/// the identity must depend on the value only, not on the allocation behind it
+fn with_spare_capacity<T: Copy>(vs: &[Vec<T>], filler: T) -> Vec<Vec<T>> {
+    let mut out = Vec::with_capacity(2 * vs.len());
+    for (i, v) in vs.iter().enumerate() {
+        if v.len() > 64 {
+            continue;
+        }
+        let mut a: Vec<T> = Vec::with_capacity(v.len() + 1 + i % 7);
+        a.extend_from_slice(v);
+        out.push(a);
+        let mut b: Vec<T> = vec![filler; v.len() + 5 + i % 3];
+        b.clear();
+        b.extend_from_slice(v);
+        out.push(b);
+    }
+    out
+}
+
 /// returns (count, first mismatch)
 fn check_values<T: Sig + Debug>(vals: &[T], expect: impl Fn(&T) -> Vec<u8>) -> (u64, Option<String>) {
     let mut n = 0u64;
@@ -146,6 +165,12 @@ fn child_vectors(which: &str, maxlen: usize, with_long: bool) -> i32 {
         if let Some(b) = bad {
             println!("MISMATCH type=Vec<u8> {}", b);
         }
+        let spare = with_spare_capacity(&vs, 0xAAu8);
+        let (c, bad) = check_values(&spare, |v| v.clone());
+        n += c;
+        if let Some(b) = bad {
+            println!("MISMATCH type=Vec<u8> (vector with spare capacity) {}", b);
+        }
         if let Some(w) = sha_order_independent(&vs[1..5.min(vs.len())], vec![9u8]) {
             println!("MISMATCH type=Vec<u8> {}", w);
         }
@@ -157,6 +182,12 @@ fn child_vectors(which: &str, maxlen: usize, with_long: bool) -> i32 {
         if let Some(b) = bad {
             println!("MISMATCH type=Vec<u16> {}", b);
         }
+        let spare = with_spare_capacity(&vs, 0xAAAAu16);
+        let (c, bad) = check_values(&spare, |v| v.iter().flat_map(|x| x.to_ne_bytes()).collect());
+        n += c;
+        if let Some(b) = bad {
+            println!("MISMATCH type=Vec<u16> (vector with spare capacity) {}", b);
+        }
         if let Some(w) = sha_order_independent(&vs[1..5.min(vs.len())], vec![9u16]) {
             println!("MISMATCH type=Vec<u16> {}", w);
         }
@@ -167,6 +198,12 @@ fn child_vectors(which: &str, maxlen: usize, with_long: bool) -> i32 {
         n += c;
         if let Some(b) = bad {
             println!("MISMATCH type=Vec<u32> {}", b);
+        }
+        let spare = with_spare_capacity(&vs, 0xAAAA_AAAAu32);
+        let (c, bad) = check_values(&spare, |v| v.iter().flat_map(|x| x.to_ne_bytes()).collect());
+        n += c;
+        if let Some(b) = bad {
+            println!("MISMATCH type=Vec<u32> (vector with spare capacity) {}", b);
         }
         if let Some(w) = sha_order_independent(&vs[1..5.min(vs.len())], vec![9u32]) {
             println!("MISMATCH type=Vec<u32> {}", w);
@@ -496,7 +533,7 @@ pub fn run(ctx: &Ctx) -> i32 {
     let coverage = json!({
         "evaluations": evals,
         "distinct_nontrivial": distinct,
-        "rule": "every value of u8/u16/i16 (and of u32/i32 in the thorough tier; quick: all values with <=2 non-zero bytes and 1-2 bit patterns), a 2e5 pattern alphabet of u64, all strings of <=4 pieces over {empty,a,é,U+10348,NUL} plus long ones, every Vec<u8|u16|u32> of length 0..5 (6) over a 5-value boundary alphabet plus lengths 1000 and 1e6; oracle = independent native-endian concatenation; vectors run in sub-processes (abort = observation), the small sweep is repeated under valgrind memcheck and (thorough) miri; distinct = distinct values",
+        "rule": "every value of u8/u16/i16 (and of u32/i32 in the thorough tier; quick: all values with <=2 non-zero bytes and 1-2 bit patterns), a 2e5 pattern alphabet of u64, all strings of <=4 pieces over {empty,a,é,U+10348,NUL} plus long ones, every Vec<u8|u16|u32> of length 0..5 (6) over a 5-value boundary alphabet plus lengths 1000 and 1e6, each also rebuilt with spare capacity (larger allocation; re-filled after clear()); oracle = independent native-endian concatenation; vectors run in sub-processes (abort = observation), the small sweep is repeated under valgrind memcheck and (thorough) miri; distinct = distinct values",
         "samples": [{"u16": "0xff00 -> [00, ff]"}, {"Vec<u16>": "[0x00ff, 0xff00, 0xffff]"}, {"Vec<u32>": "[]"}, {"String": "aé\u{10348}"}, {"sha_keys": "IndexMap<Vec<u32>,f64> in all 24 insertion orders"}],
         "exhaustive": false,
         "parts": parts,
